@@ -33,6 +33,7 @@ func c03paths() []c03path {
 			acks    []int
 			wt      []int
 			wid     int
+			stray   int
 			silent  int
 			dropped []bool
 		}
@@ -48,7 +49,7 @@ func c03paths() []c03path {
 				return
 			}
 			clone := func() st {
-				return st{append([]int{}, s.acks...), append([]int{}, s.wt...), s.wid, s.silent, append([]bool{}, s.dropped...)}
+				return st{append([]int{}, s.acks...), append([]int{}, s.wt...), s.wid, s.stray, s.silent, append([]bool{}, s.dropped...)}
 			}
 			anyPending := false
 			for j := 0; j < nd; j++ {
@@ -70,6 +71,16 @@ func c03paths() []c03path {
 				n.wid++
 				rec(append(ev, "wrongid"), n)
 			}
+			if s.stray < 1 && anyPending {
+				n := clone()
+				n.stray++
+				rec(append(ev, "stray-qos2-acks"), n)
+			}
+			if !s.dropped[0] {
+				n := clone()
+				n.dropped[0] = true
+				rec(append(ev, "displace0"), n)
+			}
 			if s.silent < vk.Pick(2, 3) && anyPending {
 				n := clone()
 				n.silent++
@@ -87,7 +98,7 @@ func c03paths() []c03path {
 		if nd == 3 {
 			ns = 2
 		}
-		rec(nil, st{make([]int, nd), make([]int, nd), 0, 0, make([]bool, ns)})
+		rec(nil, st{make([]int, nd), make([]int, nd), 0, 0, 0, make([]bool, ns)})
 	}
 	gen(2, false, maxLen)
 	gen(2, true, maxLen)
@@ -329,6 +340,32 @@ func TestC03Retransmission(t *testing.T) {
 							}
 							sawRetransmit = true
 						}
+					case ev == "stray-qos2-acks":
+						// another session (the bystander) acknowledges, QoS 2 style, an identifier that is in flight for
+						// somebody else: PUBREC then PUBCOMP with the identifier of the first pending delivery
+						for _, d := range ds {
+							if d.phase != 2 && !dropped[d.sess] {
+								mix.Send(&packet.PubRec{Header: &packet.Header{}, MessageId: d.id})
+								w.Step()
+								mix.Send(&packet.PubComp{Header: &packet.Header{}, MessageId: d.id})
+								w.Step()
+								break
+							}
+						}
+					case ev == "displace0":
+						// a new connection with the same client identifier takes sub0's place; sub0 notices at its next keep-alive exchange
+						nc := w.NewClient("sub0-again", 1, AckAll)
+						nc.Connect(ConnectOpts{ClientID: "sub0", KeepAlive: 600})
+						w.Step()
+						subs[0].Ping()
+						w.Step()
+						if w.Node(1).Local.Get(subs[0].SessionID) != nil {
+							viol("c03-displaced-session-still-registered", "after a newer connection took its client identifier and it pinged, sub0's session is still registered on the node (its deliveries would be retransmitted forever)")
+							return
+						}
+						subs[0].Drop()
+						dropped[0] = true
+						w.Step()
 					case strings.HasPrefix(ev, "drop"):
 						fmt.Sscanf(ev, "drop%d", &j)
 						subs[j].Drop()
@@ -458,8 +495,8 @@ func asInt(v any) int {
 // deadline with the per-second buckets and the ticker, the delivery must be sent again.
 func TestC03TimerPhase(t *testing.T) {
 	type tp struct {
-		TickerPhaseMs int `json:"ticker_phase_ms"`
-		DelayMs       int `json:"publish_delay_ms"`
+		TickerPhaseMs int   `json:"ticker_phase_ms"`
+		DelayMs       int   `json:"publish_delay_ms"`
 		Qos           int32 `json:"qos"`
 	}
 	var paths []tp
@@ -468,6 +505,11 @@ func TestC03TimerPhase(t *testing.T) {
 			paths = append(paths, tp{ph, d, 1})
 			if vk.Thorough() || (ph/100+d/100)%3 == 0 {
 				paths = append(paths, tp{ph, d, 2})
+			}
+			// the same with the second delivery 2.5 - 3.5 s after the acknowledged first one (its deadline is armed while
+			// the first one's is still ahead)
+			if vk.Thorough() || (ph/100+d/100)%2 == 0 {
+				paths = append(paths, tp{ph, 2500 + d, 1})
 			}
 		}
 	}
